@@ -332,7 +332,7 @@ pub fn minimise(prop: &dyn Prop, sc: &Scenario, want: &Violation) -> (Scenario, 
 // ---------------------------------------------------------------------------------------
 
 pub fn write_replay(args: &Args, sc: &Scenario, v: &Violation, original_ops: usize, minimised: bool) -> String {
-    let dir = format!("{}/replays", verif_dir());
+    let dir = std::env::var("AISSIM_REPLAY_DIR").unwrap_or_else(|_| format!("{}/replays", verif_dir()));
     let _ = std::fs::create_dir_all(&dir);
     let mut h = crate::rng::Fnv::default();
     h.write_str(&v.clause);
